@@ -823,7 +823,7 @@ func main() {
 		case big:
 			sh.n = r.Range(300, 1500)
 			if *tier == "thorough" {
-				sh.n = r.Range(1000, 9000)
+				sh.n = r.Range(1000, 3000)
 			}
 			sh.midSpan = r.Range(2, sh.n)
 			sh.alphabet = "abc"
@@ -851,10 +851,10 @@ func main() {
 			nreq = 8
 		}
 		mode := rng.Pick(r, modes)
-		if i == nCorpus+nBig-1 {
+		if *tier == "thorough" && i >= nCorpus+nBig-2 {
 			// more than consts.IDsPerBlock (4096) IDs in a sealed fraction: several ID blocks, so that the
 			// MinBlockIDs shortcuts of sealedIDsIndex.LessOrEqual take part
-			sh.n = r.Range(4200, 5000)
+			sh.n = r.Range(4200, 4600)
 			sh.midSpan = r.Range(50, sh.n)
 			mode = rng.Pick(r, []string{"sealed", "restarted"})
 		}
